@@ -123,7 +123,7 @@ def r20_2(ctx):
     ctx.check("patch file: continuation lines joined", subs == ["re.sub('\\\\\\\\\\\\s*\\\\n', '', cont)"], r"re.sub(r'\\\s*\n', '', cont)", str(subs), w)
 
 
-@rule("R20.3", "C20", "do-while(0) stripper: only `do`, braces, `while`, `(0)` and whitespace are removed; the three text segments are rebuilt in order; repeated to a fixpoint", min_instances=6)
+@rule("R20.3", "C20", "do-while(0) stripper: only `do`, braces, `while`, `(0)` and whitespace are removed; the three text segments are rebuilt in order; repeated to a fixpoint", min_instances=4)
 def r20_3(ctx):
     idx = get_index(ctx.env)
     fi = idx.func(f"{PP}.replace_do_while_0")
